@@ -19,8 +19,8 @@ def regenerate():
     try:
         from . import translate_effects
         out["effects"] = translate_effects.regenerate()
-    except ImportError:
-        pass
+    except Exception as e:          # the C17 translator must never take the other properties down with it
+        out["effects"] = {"ok": False, "error": repr(e)}
     return out
 
 
